@@ -269,6 +269,9 @@ class World:
             self.st.count("op.skipped")
             return core.Outcome(True, "skipped")
 
+        if op.get("via") == "attr":
+            # line.xx = value (the accessor of an existing or earlier tag)
+            return core.call(setattr, l, op["tag"], to_pyvalue(op["value"]))
         return core.call(l.set, op["tag"], to_pyvalue(op["value"]))
 
     def do_set_datatype(self, op):
